@@ -19,7 +19,7 @@ for d in sorted(glob.glob('/verif/seeded/C*_*')):
     meta = {
         "name": n,
         "breaks_property": n.split('_')[0],
-        "written_by": "independent sub-agent given only the property text and a scratch worktree of /repo",
+        "written_by": ("the revert of a fix: commit (regression seed), not a sub-agent" if "Not written by a sub-agent" in notes else "independent sub-agent given only the property text and a scratch worktree of /repo"),
         "needs_to_manifest": needs,
         "confirmed_by_me": {"how": "tools/confirm_mutant.sh in a scratch worktree: go build; existing suite (up to 5 attempts, -cpu 2); demo with the change; demo without it", "result": confirm.get(n, "see notes.md")},
         "checked_with": f"tools/try_mutant.sh seeded/{n}/patch.diff {owner} quick  (git -C /repo apply; ./check {owner} --tier quick; git -C /repo checkout -- .)",
